@@ -2,6 +2,8 @@
 
 package decode
 
+import "github.com/reactivego/ivg"
+
 // Exports for the verification harness in /verif. Compiled only with the
 // "verif" build tag; adds no behaviour to the package.
 
@@ -9,3 +11,17 @@ func VerifDecodeNatural(b []byte) (uint32, int)     { return buffer(b).decodeNat
 func VerifDecodeReal(b []byte) (float32, int)       { return buffer(b).decodeReal() }
 func VerifDecodeCoordinate(b []byte) (float32, int) { return buffer(b).decodeCoordinate() }
 func VerifDecodeZeroToOne(b []byte) (float32, int)  { return buffer(b).decodeZeroToOne() }
+
+func VerifDecodeColor(form int, b []byte) (c ivg.Color, n int) {
+	switch form {
+	case 0:
+		return buffer(b).decodeColor1()
+	case 1:
+		return buffer(b).decodeColor2()
+	case 2:
+		return buffer(b).decodeColor3Direct()
+	case 3:
+		return buffer(b).decodeColor4()
+	}
+	return buffer(b).decodeColor3Indirect()
+}
